@@ -11,7 +11,7 @@ from .c07 import TFMIN
 ID = 'C01'
 
 
-def _template(ctx, kind, side, exch, tfs):
+def _template(ctx, kind, side, exch, tfs, other=None):
     long = side == 'long'
     on_open = exch == 'spot'
     common = dict(side=side, qty=1.0, on_open_exits=on_open, exit_qty_from_position=on_open, record_candles=True)
@@ -56,6 +56,8 @@ def _template(ctx, kind, side, exch, tfs):
             extra = {}
             for tf in tfs:
                 extra[tf] = self.get_candles(self.exchange, self.symbol, tf)
+            if other is not None:  # a second symbol that is only a data route
+                extra['%s-1m' % other] = self.get_candles(self.exchange, other, '1m')
             rec.hooks[-1][2]['tfs'] = extra
     T.before = before
     return T
@@ -134,9 +136,10 @@ def h_two(ctx, n=3, t=2, kind='T1', side='long', exch='futures', tf='1m', data=(
                 r = [ts, prev, prev, prev, prev, 10.0]
             rows_b.append(r)
             prev = r[2]
-    T = _template(ctx, kind, side, exch, tfs)
+    data_only = two_symbols == 'data'
+    T = _template(ctx, kind, side, exch, tfs, other='ETH-USDT' if data_only else None)
     cfg = S.config_dict(exch, leverage=2, fee=0.001, balance=10000.0, warm_up=warm)
-    droutes = [(S.SYMBOL, x) for x in data]
+    droutes = [(S.SYMBOL, x) for x in data] + ([('ETH-USDT', '1m')] if data_only else [])
     warmup = None
     if warm:
         wr = [S.flat_row(S.T0 - (warm - i) * S.MIN, 100.0) for i in range(warm)]
@@ -148,8 +151,8 @@ def h_two(ctx, n=3, t=2, kind='T1', side='long', exch='futures', tf='1m', data=(
         pre2 = S.minute_rows(ctx, t, sym_from=max(1, t - 1), name='z', first_price=30.0, lo=10, hi=60)
         r2a = pre2 + [[S.T0 + i * S.MIN, pre2[-1][2], pre2[-1][2], pre2[-1][2], pre2[-1][2], 10.0] for i in range(t, n)]
         r2b = [list(r) for r in pre2] + S.minute_rows(ctx, n, sym_from=max(t, n - 1), name='w', first_price=30.0, lo=10, hi=60)[t:]
-        extra_a = [('ETH-USDT', S.make_candles(r2a), P, '1m')]
-        extra_b = [('ETH-USDT', S.make_candles(r2b), P, '1m')]
+        extra_a = [('ETH-USDT', S.make_candles(r2a), None if data_only else P, '1m')]
+        extra_b = [('ETH-USDT', S.make_candles(r2b), None if data_only else P, '1m')]
         if warm:
             warmup['%s-%s' % (S.EXCHANGE, 'ETH-USDT')] = {'exchange': S.EXCHANGE, 'symbol': 'ETH-USDT', 'candles': S.make_candles(wr).astype(float)}
     rec_a = S.run_session(S.make_candles(rows_a), T, cfg, timeframe=tf, data_routes=droutes, fast=fast, warmup=warmup, extra=extra_a)
@@ -193,6 +196,7 @@ def _jobs(tier):
         add(n=3, t=2, kind='T1', side='long', exch='futures')
         add(n=3, t=1, kind='T7', side='long', exch='futures')
         add(n=3, t=2, kind='T1mtp', side='long', exch='futures')
+        add(n=3, t=2, kind='T7', side='long', exch='futures', two_symbols='data')  # a second symbol that is only a data route, read by the strategy
         add(n=3, t=1, kind='T7', side='long', exch='futures', warm=2)  # injected warm-up candles (the store is not empty at the first minute)
         add(n=3, t=1, kind='T1', side='long', exch='futures', fast=True, warm=2)
         add(n=6, t=3, kind='T1', side='long', exch='futures', tf='3m', fast=True, sym=[2, 3])  # the first replaced minute may gap
@@ -212,6 +216,8 @@ def _jobs(tier):
         add(n=3, t=2, kind='T1', side='long', exch='futures', warm=3)
         add(n=6, t=3, kind='T1', side='long', exch='futures', tf='3m', warm=3, sym=[1, 2, 4])
         add(n=3, t=2, kind='T1', side='long', exch='futures', two_symbols=True)
+        add(n=3, t=2, kind='T7', side='long', exch='futures', two_symbols='data')
+        add(n=4, t=2, kind='T7', side='long', exch='futures', two_symbols='data', fast=True)
         add(n=4, t=2, kind='T7', side='long', exch='futures', tf='1m', fast=True)
         add(n=3, t=2, kind='T1mtp', side='long', exch='futures', fast=True)
         add(n=6, t=3, kind='T1mtp', side='short', exch='futures', tf='3m', fast=True, sym=[1, 2, 3])
